@@ -252,4 +252,295 @@ theorem proxy_cannot_forward_stake (s : St) (d c sd dst : Addr) (dn : Denom) (x 
 
 example : sendDisabled bond = true := by decide
 
+/-! ### bank and list facts -/
+
+theorem msgSend_bal {b b' : Bank} {src dst : Addr} {d : Denom} {x : Int} (h : msgSend b src dst d x = .ok b') :
+    0 < x ∧ sendDisabled d = false ∧ b.send src dst d x = .ok b' := by
+  unfold msgSend at h
+  by_cases h1 : x ≤ 0
+  · simp [h1] at h
+  · by_cases h2 : sendDisabled d = true
+    · simp [h1, h2] at h
+    · simp only [h1, h2, if_false, Bool.false_eq_true] at h
+      exact ⟨by omega, by simpa using h2, h⟩
+
+theorem sumUnb_append (w : Addr) (l : List Unb) (u : Unb) :
+    sumUnb w (l ++ [u]) = sumUnb w l + (if u.who = w then u.amount else 0) := by
+  induction l with
+  | nil => simp [sumUnb]
+  | cons a r ih => simp [sumUnb, ih]; omega
+
+theorem sumEntries_addEntry (es : List Entry) (h e a : Int) : sumEntries (addEntry es h e a) = sumEntries es + a := by
+  induction es with
+  | nil => simp [addEntry, sumEntries]
+  | cons x r ih =>
+    unfold addEntry
+    split
+    · simp [sumEntries]; omega
+    · simp [sumEntries, ih]; omega
+
+theorem head_addEntry (es : List Entry) (h e a : Int) :
+    ∃ hd, (addEntry es h e a).head? = some hd ∧ (es = [] → hd.endT = e) ∧ (∀ h0, es.head? = some h0 → hd.endT = h0.endT) := by
+  cases es with
+  | nil => exact ⟨⟨e, a, h⟩, by simp [addEntry], by simp, by simp⟩
+  | cons x r =>
+    unfold addEntry
+    split
+    · exact ⟨{ x with amount := x.amount + a }, by simp, by simp, by simp⟩
+    · exact ⟨x, by simp, by simp, by simp⟩
+
+def UnbNonneg (l : List Unb) : Prop := ∀ u ∈ l, 0 ≤ u.amount
+
+theorem sumUnb_nonneg (w : Addr) (l : List Unb) (h : UnbNonneg l) : 0 ≤ sumUnb w l := by
+  induction l with
+  | nil => simp [sumUnb]
+  | cons a r ih =>
+    have ha := h a (by simp)
+    have hr := ih (fun u hu => h u (by simp [hu]))
+    simp only [sumUnb]
+    split <;> omega
+
+/-- staking end-block: what is released arrives at the delegator in the bond denom; nothing else moves -/
+theorem release_facts (t : Int) (l : List Unb) (b : Bank) (hw : ∀ u ∈ l, u.who = "plock" ∨ u.who = "pown") (hn : UnbNonneg l) :
+    let r := releaseUbds b t l
+    (∀ a, r.1.bal a fee = b.bal a fee) ∧ (∀ a, r.1.bal a shareD = b.bal a shareD)
+    ∧ r.1.bal "plock" bond + sumUnb "plock" r.2 = b.bal "plock" bond + sumUnb "plock" l
+    ∧ b.bal "plock" bond ≤ r.1.bal "plock" bond
+    ∧ (∀ u ∈ r.2, u ∈ l) := by
+  induction l generalizing b with
+  | nil => simp [releaseUbds]
+  | cons u r ih =>
+    have hu := hw u (by simp)
+    have hun := hn u (by simp)
+    have hw' : ∀ v ∈ r, v.who = "plock" ∨ v.who = "pown" := fun v hv => hw v (by simp [hv])
+    have hn' : UnbNonneg r := fun v hv => hn v (by simp [hv])
+    simp only [releaseUbds]
+    split
+    · have := ih ((b.credit stakingPool bond (-u.amount)).credit u.who bond u.amount) hw' hn'
+      simp only at this
+      obtain ⟨f1, f2, f3, f4, f5⟩ := this
+      refine ⟨?_, ?_, ?_, ?_, ?_⟩
+      · intro a; rw [f1]; simp [Bank.credit_bal, fee, bond]
+      · intro a; rw [f2]; simp [Bank.credit_bal, shareD, bond]
+      · rw [f3]; simp only [sumUnb, Bank.credit_bal, stakingPool]
+        rcases hu with h | h <;> simp [h] <;> omega
+      · refine Int.le_trans ?_ f4
+        simp only [Bank.credit_bal, stakingPool]
+        rcases hu with h | h <;> simp [h] <;> omega
+      · intro v hv; simp [f5 v hv]
+    · have := ih b hw' hn'
+      simp only at this
+      obtain ⟨f1, f2, f3, f4, f5⟩ := this
+      refine ⟨f1, f2, ?_, f4, ?_⟩
+      · simp only [sumUnb]; omega
+      · intro v hv
+        simp only [List.mem_cons] at hv ⊢
+        rcases hv with h | h
+        · exact Or.inl h
+        · exact Or.inr (f5 v h)
+
+/-- shareclass end-block payout (all recipients = the lockup account): fee balance + pending unbondings is conserved -/
+theorem pay_facts (t : Int) (l : List Unb) (b b' : Bank) (l' : List Unb)
+    (hw : ∀ u ∈ l, 0 ≤ u.amount ∧ u.who = lock) (h : payScUnb b t l = some (b', l')) :
+    b'.bal lock fee + sumUnb lock l' = b.bal lock fee + sumUnb lock l
+    ∧ b.bal lock fee ≤ b'.bal lock fee
+    ∧ (∀ a, b'.bal a shareD = b.bal a shareD) ∧ b'.bal "plock" bond = b.bal "plock" bond
+    ∧ (∀ u ∈ l', u ∈ l)
+    ∧ ((∀ u ∈ l, t < u.completion) → b' = b ∧ l' = l) := by
+  induction l generalizing b b' l' with
+  | nil => simp [payScUnb] at h; obtain ⟨e1, e2⟩ := h; subst e1 e2; simp
+  | cons u r ih =>
+    have hu := hw u (by simp)
+    have hw' : ∀ v ∈ r, 0 ≤ v.amount ∧ v.who = lock := fun v hv => hw v (by simp [hv])
+    simp only [payScUnb] at h
+    split at h
+    · split at h
+      · rename_i hc
+        have := ih _ _ _ hw' h
+        obtain ⟨f1, f2, f3, f4, f5, f6⟩ := this
+        refine ⟨?_, ?_, ?_, ?_, ?_, ?_⟩
+        · rw [f1]; simp [sumUnb, Bank.credit_bal, hu.2, lock, fee, bond, stakingPool]; omega
+        · refine Int.le_trans ?_ f2
+          simp [Bank.credit_bal, hu.2, lock, fee, bond, stakingPool]; omega
+        · intro a; rw [f3]; simp [Bank.credit_bal, shareD, fee, bond]
+        · rw [f4]; simp [Bank.credit_bal, hu.2, lock, fee, bond, stakingPool]
+        · intro v hv; simp [f5 v hv]
+        · intro hall; have := hall u (by simp); omega
+      · simp at h
+    · cases hp : payScUnb b t r with
+      | none => simp [hp] at h
+      | some p =>
+        obtain ⟨b1, l1⟩ := p
+        simp [hp] at h
+        obtain ⟨e1, e2⟩ := h
+        subst e1 e2
+        have := ih _ _ _ hw' hp
+        obtain ⟨f1, f2, f3, f4, f5, f6⟩ := this
+        refine ⟨?_, f2, f3, f4, ?_, ?_⟩
+        · simp only [sumUnb]; omega
+        · intro v hv
+          simp only [List.mem_cons] at hv ⊢
+          rcases hv with h | h
+          · exact Or.inl h
+          · exact Or.inr (f5 v h)
+        · intro hall
+          have := f6 (fun v hv => hall v (by simp [hv]))
+          simp [this.1, this.2]
+
+/-! ### the invariant -/
+
+def lockedT (s : St) (t : Int) : Res Int := lockedAt s.variant s.OL s.startT s.endT t
+
+structure Inv (s : St) : Prop where
+  ol0 : 0 ≤ s.OL
+  ut0 : 0 ≤ s.ut
+  dv0 : 0 ≤ s.DV
+  df0 : 0 ≤ s.DF
+  bL0 : 0 ≤ s.bank.bal lock fee
+  bS0 : 0 ≤ s.bank.bal lock shareD
+  bP0 : 0 ≤ s.bank.bal "plock" bond
+  st0 : 0 ≤ s.stake "plock"
+  ubd0 : ∀ u ∈ s.ubds, 0 ≤ u.amount ∧ (u.who = "plock" ∨ u.who = "pown")
+  sc0 : ∀ u ∈ s.scUnb, 0 ≤ u.amount ∧ u.who = lock
+  /-- (A) the account's own fee balance covers what is locked and not tracked as delegated, now and later -/
+  cover : s.created = true → ∀ t l, s.now ≤ t → lockedT s t = .ok l → l - s.DV ≤ s.bank.bal lock fee
+  /-- (B) tracked_le_actual -/
+  tracked : s.DV + s.DF ≤ actualDelegated s
+  /-- (B') non-voting: while no recorded entry has matured, the tracked amounts are still staked or unbonding -/
+  liveNv : s.variant = .nv → blocked s = false → s.DV + s.DF ≤ s.bank.bal lock shareD + sumUnb lock s.scUnb
+  /-- every pending shareclass unbonding is not older than the first recorded entry, which is not later than now + ut -/
+  scHead : ∀ u ∈ s.scUnb, ∃ h, s.entries.head? = some h ∧ h.endT ≤ u.completion
+  headUt : ∀ h, s.entries.head? = some h → h.endT ≤ s.now + s.ut
+  /-- (C) the outflow bound: the custody set still holds everything the schedule keeps locked, now and later -/
+  cust : s.created = true → ∀ t l, s.now ≤ t → lockedT s t = .ok l → l ≤ custody s
+
+/-- well-formed inputs: third-party messages are signed by accounts outside the custody set, boundary amounts are
+    non-negative, and (no-slash hypothesis) the validator's share token trades 1:1 -/
+def extOk (e : Ext) : Prop := 0 ≤ e.rewFee ∧ 0 ≤ e.rewBond
+
+def OpOk : Op → Prop
+  | .init _ funder _ _ _ _ _ _ => funder ≠ lock
+  | .deposit src _ _ _ => src ≠ lock ∧ src ≠ "plock"
+  | .nvDelegate _ _ _ _ amt e => extOk e ∧ e.share = amt
+  | .nvUndelegate _ _ _ _ amt e => extOk e ∧ e.share = amt
+  | .nvWithdrawReward _ _ e => extOk e
+  | .sdSelfDelegate _ _ _ e => extOk e
+  | .pxUndelegate _ _ _ _ e => extOk e
+  | .pxWithdrawReward _ _ _ e => extOk e
+  | .modSelfDelegate d _ e => d ≠ lock ∧ extOk e
+  | .modWithdraw d _ => d ≠ lock
+  | _ => True
+
+theorem ubdNonneg {s : St} (h : Inv s) : UnbNonneg s.ubds := fun u hu => (h.ubd0 u hu).1
+theorem scNonneg {s : St} (h : Inv s) : UnbNonneg s.scUnb := fun u hu => (h.sc0 u hu).1
+
+theorem lockedT_range {s : St} (h : Inv s) {t l : Int} (hl : lockedT s t = .ok l) : 0 ≤ l ∧ l ≤ s.OL := by
+  have hv : ∃ sd, s.variant = vOf sd := by cases hvv : s.variant; exact ⟨false, rfl⟩; exact ⟨true, rfl⟩
+  obtain ⟨sd, hsd⟩ := hv
+  unfold lockedT lockedAt at hl
+  rw [hsd] at hl
+  have := schedule_range sd s.OL s.startT s.endT t
+  unfold S_schedule_range lockOk unlockedVal lockedVal at this
+  cases hi : lockInfo (vOf sd) s.OL s.startT s.endT t with
+  | ok p =>
+    simp [hi, Res.bind] at hl
+    have := this h.ol0 (by simp [hi, Res.isOk])
+    simp [hi] at this
+    omega
+  | err c => simp [hi, Res.bind] at hl
+  | panic k => simp [hi, Res.bind] at hl
+
+theorem lockedT_antitone {s : St} (h : Inv s) {t1 t2 l1 l2 : Int} (h12 : t1 ≤ t2)
+    (hl1 : lockedT s t1 = .ok l1) (hl2 : lockedT s t2 = .ok l2) : l2 ≤ l1 := by
+  have hv : ∃ sd, s.variant = vOf sd := by cases hvv : s.variant; exact ⟨false, rfl⟩; exact ⟨true, rfl⟩
+  obtain ⟨sd, hsd⟩ := hv
+  unfold lockedT lockedAt at hl1 hl2
+  rw [hsd] at hl1 hl2
+  have := locked_antitone sd s.OL s.startT s.endT t1 t2
+  unfold S_locked_antitone lockOk lockedVal at this
+  cases hi1 : lockInfo (vOf sd) s.OL s.startT s.endT t1 with
+  | ok p1 =>
+    cases hi2 : lockInfo (vOf sd) s.OL s.startT s.endT t2 with
+    | ok p2 =>
+      simp [hi1, hi2, Res.bind] at hl1 hl2
+      have := this h.ol0 h12 (by simp [hi1, Res.isOk]) (by simp [hi2, Res.isOk])
+      simp [hi1, hi2] at this
+      omega
+    | err c => simp [hi2, Res.bind] at hl2
+    | panic k => simp [hi2, Res.bind] at hl2
+  | err c => simp [hi1, Res.bind] at hl1
+  | panic k => simp [hi1, Res.bind] at hl1
+
+/-! ### preservation, handler by handler -/
+
+theorem notBonded_val {s : St} (hI : Inv s) {l : Int} (hl : 0 ≤ l) :
+    notBondedLocked s.variant l s.DV = max (l - s.DV) 0 := by
+  cases hv : s.variant
+  · exact notBonded_eq false l s.DV hl hI.dv0
+  · exact notBonded_eq true l s.DV hl hI.dv0
+
+theorem inv_send {s s' : St} {c sd dst : Addr} {d : Denom} {x : Int} (hI : Inv s)
+    (h : doSend s c sd dst d x = .ok s') : Inv s' := by
+  simp only [doSend] at h
+  split at h; · simp at h
+  rename_i hc
+  split at h; · simp at h
+  split at h; · simp at h
+  split at h; · simp at h
+  obtain ⟨locked, hl, h⟩ := Bank.bind_ok h
+  split at h; · simp at h
+  rename_i hb
+  split at h; · simp at h
+  rename_i g1
+  split at h; · simp at h
+  rename_i g2
+  obtain ⟨b, hb2, h⟩ := Bank.bind_ok h
+  obtain ⟨xpos, _, hsend⟩ := msgSend_bal hb2
+  obtain ⟨_, _, eb⟩ := Bank.send_ok hsend
+  simp only [Res.ok.injEq] at h
+  subst h eb
+  have hcr : s.created = true := by simpa using hc
+  have hbl : blocked s = false := by simpa using hb
+  have hl' : lockedT s s.now = .ok locked := hl
+  have hr := lockedT_range hI hl'
+  have hnb := notBonded_val hI hr.1
+  rw [hnb] at g1 g2
+  have bal' : s.bank.bal lock fee - x ≤ ((s.bank.credit lock fee (-x)).credit dst fee x).bal lock fee := by
+    simp only [Bank.credit_bal]; split <;> simp_all <;> omega
+  have hS : ((s.bank.credit lock fee (-x)).credit dst fee x).bal lock shareD = s.bank.bal lock shareD := by
+    simp [Bank.credit_bal, fee, shareD]
+  have hP : ((s.bank.credit lock fee (-x)).credit dst fee x).bal "plock" bond = s.bank.bal "plock" bond := by
+    simp [Bank.credit_bal, fee, bond]
+  have key : ∀ t l, s.now ≤ t → lockedT s t = .ok l → l ≤ locked := fun t l ht hlt => lockedT_antitone hI ht hl' hlt
+  refine { hI with bL0 := ?_, bS0 := ?_, bP0 := ?_, cover := ?_, tracked := ?_, liveNv := ?_, cust := ?_ }
+  · show 0 ≤ ((s.bank.credit lock fee (-x)).credit dst fee x).bal lock fee
+    omega
+  · show 0 ≤ ((s.bank.credit lock fee (-x)).credit dst fee x).bal lock shareD
+    rw [hS]; exact hI.bS0
+  · show 0 ≤ ((s.bank.credit lock fee (-x)).credit dst fee x).bal "plock" bond
+    rw [hP]; exact hI.bP0
+  · intro _ t l ht hlt
+    have := key t l ht hlt
+    show l - s.DV ≤ ((s.bank.credit lock fee (-x)).credit dst fee x).bal lock fee
+    omega
+  · have := hI.tracked
+    unfold actualDelegated at this ⊢
+    cases hv : s.variant <;> simp only [hv] at this ⊢ <;> simp only [hS, hP] <;> exact this
+  · intro hv hb'
+    have := hI.liveNv hv hbl
+    show s.DV + s.DF ≤ ((s.bank.credit lock fee (-x)).credit dst fee x).bal lock shareD + sumUnb lock s.scUnb
+    rw [hS]; exact this
+  · intro _ t l ht hlt
+    have hk := key t l ht hlt
+    have htr := hI.tracked
+    have hdf := hI.df0
+    unfold custody
+    unfold actualDelegated at htr
+    cases hv : s.variant <;> simp only [hv] at htr ⊢
+    · have := hI.liveNv hv hbl
+      show l ≤ ((s.bank.credit lock fee (-x)).credit dst fee x).bal lock fee + ((s.bank.credit lock fee (-x)).credit dst fee x).bal lock shareD + sumUnb lock s.scUnb
+      rw [hS]; omega
+    · show l ≤ ((s.bank.credit lock fee (-x)).credit dst fee x).bal lock fee + ((s.bank.credit lock fee (-x)).credit dst fee x).bal "plock" bond + s.stake "plock" + sumUnb "plock" s.ubds
+      rw [hP]; omega
+
 end Sunrise.C12
